@@ -12,7 +12,9 @@ PF=$D/patch.diff; [ -f $D/patch.rebased.diff ] && PF=$D/patch.rebased.diff
 cd /verif
 PYTHONPATH=/repo /venv/bin/python $D/demo.py > $D/demo.unchanged.log 2>&1; r0=$?
 PYTHONPATH=$WT /venv/bin/python $D/demo.py > $D/demo.changed.log 2>&1; r1=$?
+cp evidence/$P.json /tmp/evidence-$P.keep 2>/dev/null
 VERIF_REPO=$WT ./check $P --tier quick > $D/check.changed.log 2>&1; rc=$?
+cp /tmp/evidence-$P.keep evidence/$P.json 2>/dev/null   # evidence must describe the unchanged tree
 nv=$(grep -c '^VIOLATION' $D/check.changed.log)
 nf=$(grep '^VIOLATION' $D/check.changed.log | grep -vc 'no-failing-input-found')
 python3 - <<PY
